@@ -1,3 +1,229 @@
+/-
+  Driver.X04 — runs the X04 CodeModels (Golib.Ext.Topo, Golib.Ext.SafeLoop) on request lines.
+  Strings travel as hex (`-` = empty).
+
+    P4 <hex>                      parseV4 (net.LookupIP of a dotted quad)       → none | <hex of 4 bytes>
+    I <iphex>                     IPO{IP}.IsIPv6, IsLocal127                    → <0|1><0|1>
+    N <ext> <attr> <ops>          one NODE history from NewNODE()
+         ext : `-` or `,`-separated  <hex>=e | <hex>=o | <hex>=v<hex>   what net.LookupIP says for the strings that
+               are not dotted quads (the resolver parameter of the model); a string not listed is an error
+         attr: hex of WriteValue(Attr) (type byte 80 + map)
+         ops `;`-separated:  L:<local+local+…|->:<addr>   AddListen          → .
+                             O:<local>:<remote>           AddOutter          → .
+                             A:<iphex>:<port>             IsAttachable       → 0 | 1
+                             B                            ToBytes            → hex
+    D <hex>                       NewNODE().ToObject(bytes) then ToBytes        → fail | ok <hex>
+    S <ops>                       one panicutil history from the state of a fresh process (`;`-separated)
+         m:nil | m:nilmap | m:<hex>=<0|1>+…  | m:-       SetLoopOffMap       → . | panic
+         o:<hex>:<0|1>  SetOnOff → . | panic      a:<0|1>  AllOff = b → .
+         s:<hex>:<r|p|a>          Safe(name, cb)  cb returns / panics / sets AllOff       → s<ran><escaped>
+         f:<hex>:<p|a><k>:<fuel>[:s]  SafeFor(name, cb) cb returns k times, then panics / sets AllOff → f<runs><r|e|s|f>
+         r  ResetPerfMap → k<sorted hex keys `,`>      c:<id>  Cycle → . | panic      q:<id>  cyclecounts[id] → n<count>
+    K next <bits> <seed> <pos> | K int <i> | K long <i> | K add <ty,ty,…|->     keygen logic (the PRNG values come with the request)
+    Y <ops>                       DateSyncTime life cycle: st:<now>  sp  is  t:<t>:<now>   → . | panic | 0 | 1, then `|sync,last`
+-/
+import Golib.Ext.Topo
+import Golib.Ext.SafeLoop
 import Driver.Common
-/-! Driver of the extension check X04 (placeholder until the model exists). -/
-def main : IO Unit := pure ()
+
+open Drv Ext.Keys
+
+namespace T
+open Ext.Topo
+
+def parseExt (s : String) : Option (List (Bytes × Look)) :=
+  if s == "-" then some [] else
+  (s.splitOn ",").mapM (fun e =>
+    match e.splitOn "=" with
+    | [k, v] => do
+      let kb ← ofHex k
+      if v == "e" then pure (kb, Look.err)
+      else if v == "o" then pure (kb, Look.other)
+      else if v.startsWith "v" then do
+        let ip ← ofHex (String.ofList (v.toList.drop 1))
+        pure (kb, Look.v4 ip)
+      else none
+    | _ => none)
+
+def extOf (tab : List (Bytes × Look)) : Ext := fun s =>
+  match tab.find? (fun p => p.1 == s) with
+  | some p => p.2
+  | none => .err
+
+def parseLocals (s : String) : Option (List Bytes) :=
+  if s == "-" then some [] else (s.splitOn "+").mapM ofHex
+
+def nodeOp (ext : Ext) (n : NODE) (op : String) : NODE × String :=
+  match op.splitOn ":" with
+  | ["L", ls, a] =>
+    match parseLocals ls, ofHex a with
+    | some ls, some a => (addListen ext n ls a, ".")
+    | _, _ => (n, "bad")
+  | ["O", l, r] =>
+    match ofHex l, ofHex r with
+    | some l, some r => (addOutter ext n l r, ".")
+    | _, _ => (n, "bad")
+  | ["A", ip, p] =>
+    match ofHex ip, parseInt p with
+    | some ip, some p => (n, if isAttachable n ⟨ip, p⟩ then "1" else "0")
+    | _, _ => (n, "bad")
+  | ["B"] => (n, hexOf (toBytes n))
+  | _ => (n, "bad")
+
+def nodeLine (ext attr ops : String) : String :=
+  match parseExt ext, ofHex attr with
+  | some tab, some ab =>
+    match Value.decode ab with
+    | some (.map kvs, []) =>
+      let rec go (n : NODE) (ops : List String) (acc : List String) : List String :=
+        match ops with
+        | [] => acc.reverse
+        | op :: rest => let (n', o) := nodeOp (extOf tab) n op; go n' rest (o :: acc)
+      ";".intercalate (go ⟨kvs, [], []⟩ (ops.splitOn ";") [])
+    | _ => "badattr"
+  | _, _ => "bad"
+
+def decLine (hex : String) : String :=
+  match ofHex hex with
+  | none => "bad"
+  | some bs =>
+    match toObject bs with
+    | none => "fail"
+    | some (n, _) => s!"ok {hexOf (toBytes n)}"
+
+end T
+
+namespace S
+open Ext.Safe
+
+def parseMap (s : String) : Option (List (Name × Bool)) :=
+  if s == "-" then some [] else
+  (s.splitOn "+").mapM (fun e =>
+    match e.splitOn "=" with
+    | [k, v] => (ofHex k).map (fun kb => (kb, v == "1"))
+    | _ => none)
+
+def cbOf (kind : Char) (k : Nat) : Cb := fun i =>
+  if i < k then .ret else if kind == 'p' then .panic else .allOff
+
+def endCh : End → String
+  | .returned => "r" | .escaped => "e" | .spins => "s" | .fuel => "f"
+
+def b (x : Bool) : String := if x then "1" else "0"
+
+def insertSorted (x : String) : List String → List String
+  | [] => [x]
+  | y :: r => if x < y then x :: y :: r else y :: insertSorted x r
+
+def showOut : Out → String
+  | .unit => "."
+  | .panic => "panic"
+  | .safe r e => s!"s{b r}{b e}"
+  | .safeFor n e => s!"f{n}{endCh e}"
+  | .keys ks => "k" ++ ",".intercalate ((ks.map hexOf).foldl (fun acc x => insertSorted x acc) [])
+
+def parseOp (op : String) : Option (Sum Op Int) :=
+  match op.splitOn ":" with
+  | ["m", "nil"] => some (.inl (.setMap none))
+  | ["m", "nilmap"] => some (.inl (.setMap (some none)))
+  | ["m", m] => (parseMap m).map (fun m => .inl (.setMap (some (some m))))
+  | ["o", n, v] => (ofHex n).map (fun n => .inl (.setOnOff n (v == "1")))
+  | ["a", v] => some (.inl (.setAllOff (v == "1")))
+  | ["s", n, c] =>
+    (ofHex n).map (fun n => .inl (.safe n (match c with | "r" => fun _ => .ret | "p" => fun _ => .panic | _ => fun _ => .allOff)))
+  | "f" :: n :: c :: fuel :: _hint =>
+    match ofHex n, c.toList, parseNat fuel with
+    | some n, kind :: ks, some fuel => (parseNat (String.ofList ks)).map (fun k => .inl (.safeFor n (cbOf kind k) fuel))
+    | _, _, _ => none
+  | ["r"] => some (.inl .resetPerf)
+  | ["c", id] => (parseInt id).map (fun id => .inl (.cycle id))
+  | ["q", id] => (parseInt id).map .inr
+  | _ => none
+
+def line (ops : String) : String :=
+  let rec go (st : State) (ops : List String) (acc : List String) : List String :=
+    match ops with
+    | [] => acc.reverse
+    | op :: rest =>
+      match parseOp op with
+      | none => go st rest ("bad" :: acc)
+      | some (.inr id) => go st rest (s!"n{st.counts id}" :: acc)
+      | some (.inl o) => let r := step st o; go r.1 rest (showOut r.2 :: acc)
+  ";".intercalate (go State.init (ops.splitOn ";") [])
+
+end S
+
+namespace K
+open Ext.Key
+
+def tyOf : String → ArgTy
+  | "int8" => .int8 | "int16" => .int16 | "int32" => .int32 | "int64" => .int64
+  | "uint8" => .uint8 | "uint16" => .uint16 | "uint32" => .uint32 | "uint64" => .uint64
+  | "float32" => .float32 | "float64" => .float64 | _ => .other
+
+/-- the generator instance of one request: constant answers -/
+def constPrng (bits : Nat) : Prng Unit := ⟨fun _ => (), fun _ => (bits, ()), fun _ _ => (0, ()), fun _ _ => (0, ())⟩
+
+def showOut : Out → String
+  | .unit => "ok" | .val v => toString v | .panic => "panic"
+
+def line : List String → String
+  | "next" :: bits :: _seedAndPosition => match parseNat bits with
+    | some b => showOut (step (constPrng b) () .next).2
+    | none => "bad"
+  | ["int", i] => match parseInt i with
+    | some i => (match (step (constPrng 0) () (.randInt i)).2 with | .panic => "panic" | _ => "ok")
+    | none => "bad"
+  | ["long", i] => match parseInt i with
+    | some i => (match (step (constPrng 0) () (.randLong i)).2 with | .panic => "panic" | _ => "ok")
+    | none => "bad"
+  | ["add", tys] =>
+    let args := if tys == "-" then [] else (tys.splitOn ",").map tyOf
+    showOut (step (constPrng 0) () (.addSeed 0 args)).2
+  | _ => "bad"
+
+end K
+
+namespace Y
+open Ext.Sync
+
+def showOut : Out → String
+  | .unit => "." | .bool x => if x then "1" else "0" | .panic => "panic"
+
+def parseOp (op : String) : Option Op :=
+  match op.splitOn ":" with
+  | ["st", now] => (parseInt now).map .start
+  | ["sp"] => some .stop
+  | ["is"] => some .isSync
+  | ["t", t, now] => match parseInt t, parseInt now with
+    | some t, some now => some (.tick t now)
+    | _, _ => none
+  | _ => none
+
+def line (ops : String) : String :=
+  match (ops.splitOn ";").mapM parseOp with
+  | none => "bad"
+  | some os =>
+    let r := run State.init os
+    ";".intercalate (r.2.map showOut) ++ s!"|{r.1.sync},{r.1.last}"
+
+end Y
+
+def answer (l : String) : String :=
+  match l.splitOn " " with
+  | ["P4", h] => match ofHex h with
+    | some bs => (match Ext.Topo.parseV4 bs with | some ip => hexOf ip | none => "none")
+    | none => "bad"
+  | ["I", h] => match ofHex h with
+    | some ip =>
+      let o : Ext.Topo.IPO := ⟨ip, []⟩
+      S.b o.isIPv6 ++ S.b o.isLocal127
+    | none => "bad"
+  | ["N", ext, attr, ops] => T.nodeLine ext attr ops
+  | ["D", h] => T.decLine h
+  | ["S", ops] => S.line ops
+  | "K" :: rest => K.line rest
+  | ["Y", ops] => Y.line ops
+  | _ => "bad"
+
+def main : IO Unit := Drv.statelessLoop answer
